@@ -120,10 +120,27 @@ func (x *extState) options(parked []*kernel.Parked) []kernel.Option {
 
 // fullExtra is the extra data the default (in-backend) mode would have stored for a leaf.
 func (x *extState) fullExtra(st *reflog.Leaf) []byte {
+	if c := x.w.be.Creator[string(st.Identity)]; c != nil {
+		return c.ExtraData()
+	}
 	for _, sub := range x.w.subs {
 		if bytes.Equal(sha(sub.Leaf.DER), st.Identity) {
 			return sub.ExtraData()
 		}
 	}
 	return st.Extra
+}
+
+// extraOK: is b what the default mode could serve as extra data for the stored leaf?
+// The first accepted submission of a leaf decides what was stored.
+func (x *extState) extraOK(st *reflog.Leaf, b []byte) bool {
+	if c := x.w.be.Creator[string(st.Identity)]; c != nil {
+		return c.extraOK(b)
+	}
+	for _, sub := range x.w.subs {
+		if bytes.Equal(sha(sub.Leaf.DER), st.Identity) && sub.extraOK(b) {
+			return true
+		}
+	}
+	return bytes.Equal(b, st.Extra)
 }
